@@ -8,7 +8,7 @@ DESIGN_REF = 'DESIGN.md 4/C15'
 RULE = ('Hypothesis draws (T, v) from U (without ANY, whose contents are opaque to every decoder); e = reference DER of v; for '
         'EVERY node of the TLV tree of e and every applicable single rewrite - constructed element or explicit wrapper -> '
         'indefinite length, primitive string element (string-ness taken from the type, so implicitly tagged strings count) -> '
-        'one level of segments, BOOLEAN FF -> 01 / 7F / 80 / FE - the rewritten e\' (validated by the reference reader as a BER '
+        'one level of segments (two, one, and for an empty string also none), BOOLEAN FF -> 01 / 7F / 80 / FE - the rewritten e\' (validated by the reference reader as a BER '
         'encoding of the same value) must be rejected with PyAsn1Error by der.decode (all three kinds) and cer.decode (BOOLEAN), '
         'with the guiding type and, when T has no IMPLICIT tag, without it. Control arm: der.decode(e) and ber.decode(e\') return '
         'v. Non-trivial = the rewritten node is nested, tagged, or decoded under a guiding type; distinct = distinct (e\', decoder, '
@@ -39,7 +39,13 @@ def rewrites(T, v):
         if n.con:
             out.append(('indef', where, n, x690.reserialize(e, top, n, 'indef')))
         elif t is not None and t['k'] in ir.STRING_KINDS:
-            out.append(('segment', where, n, x690.reserialize(e, top, n, 'segment', t['k'] == 'BITSTRING')))
+            bits = t['k'] == 'BITSTRING'
+            body = e[n.hdr_end:n.end]
+            out.append(('segment', where, n, x690.reserialize(e, top, n, 'segment', bits)))
+            if len(body) - bits >= 2:
+                out.append(('segment', where + ' one-segment', n, x690.reserialize(e, top, n, 'segment', (bits, 1))))
+            if len(body) - bits == 0:
+                out.append(('segment', where + ' no-segment', n, x690.reserialize(e, top, n, 'segment', (bits, 0))))
         elif t is not None and t['k'] == 'BOOLEAN' and e[n.hdr_end:n.end] == b'\xff':
             for octet in (0x01, 0x7f, 0x80, 0xfe):
                 out.append(('true', where + ' %02x' % octet, n, x690.reserialize(e, top, n, 'content', bytes([octet]))))
@@ -85,6 +91,13 @@ def run_case(case, col=None):
             for guided in (True, False):
                 if not guided and not schemaless:
                     continue
+                if not guided:
+                    # control arm of the schemaless run - and, as in any real process, the BER decoder has seen the tags first
+                    b0 = lib.decode('BER', e2, None)
+                    if not (b0.ok and b0.rest == b''):
+                        if col is not None:
+                            col.exclude('control arm: schemaless ber.decode(rewritten) refuses (belongs to C09/C16)')
+                        continue
                 d = lib.decode(dec, e2, sch if guided else None)
                 nontriv = node.depth >= 1 or bool(T.get('tags')) or guided
                 if col is not None:
